@@ -56,7 +56,8 @@ CFG = {
             "calls always contend for the same address) over the real servers repository (miniredis) under the gating go-redis hook, with lease-expiry (e) and clock (t) events; compared with "
             "the Lean Sys model: per-client command trace (kind + reply class), call results, final canonical keyspace; "
             "oracle on the implementation's output: final rows = fold of the observed exec:ok commits, each applied "
-            "atomically to the then-current registry; non-trivial = the schedule steps both client 0 and client 1",
+            "atomically to the then-current registry, commit results = the atomic calls' results, an uncommitted call reports a lock error or a "
+            "no-effect result, every record a concurrent reader reports = the replayed record of that address at the instant of its HMGET; non-trivial = the schedule steps both client 0 and client 1",
     "assumptions": [
         "resolvers are key-preserving (KeyPreserving: applied to a record stored under the caller's address they return a record "
         "for that address; implied by AddrPreserving); the onConflict callbacks in the source mutate the stored record in place and "
@@ -78,6 +79,12 @@ CFG = {
         "2-3 clients on one address",
     ],
     "trusted_base": COMMON_TRUSTED + [
+        "driver-implemented oracle semantics in lean/Swat4/Drv/C09.lean (not Model/ definitions; built on Spec/Registry AbsState.add/update/remove): "
+        "`oracle` (replay of the trace's exec:ok entries as atomic calls, commit-result comparison, final-rows comparison via svCore/absCore), "
+        "`noEffectResult` + `idle` (a writer that never committed reports err:locklost / err:exhausted or the result of a no-effect atomic call on one of "
+        "the registries the replay passes through) and `readersOk` (a reader reports ok, no address twice, and every record it reports equals, field for "
+        "field, the replayed registry's record of that address at the trace position of its hmget; completeness of a listing is not checked by the oracle, "
+        "only by the comparison with the model)",
         "Model/StoreMachine.lean wstep/rstep/Sys.step as the meaning of 'the repository code' (validated: trace, results and "
         "final keyspace agree with the real repository on every generated schedule)",
         "harness/internal/facts/storewrites.go (go/ast extractor, trusted to report call sites faithfully). It recognises: a Redis "
